@@ -537,3 +537,101 @@ func (w *World) syncCallees(fn *ssa.Function, depth int, includeDefer bool) map[
 	rec(fn, depth)
 	return out
 }
+
+// ---------------------------------------------------------------------------------------------
+// goroutine inventory (P9)
+
+type goLoop struct {
+	Starter   *ssa.Function
+	Go        *ssa.Go
+	Body      *ssa.Function
+	HasLoop   bool
+	ExitConds []string  // description of what the loop's continuation depends on
+	FlagField []*fieldRef // bool fields tested by the loop condition
+	Selects   []*ssa.Select
+}
+
+type fieldRef struct {
+	Owner string
+	Name  string
+	Load  ssa.Value
+}
+
+// inCycle: blocks that lie on a CFG cycle.
+func cycleBlocks(fn *ssa.Function) map[*ssa.BasicBlock]bool {
+	out := map[*ssa.BasicBlock]bool{}
+	for _, b := range fn.Blocks {
+		// b reaches itself?
+		seen := map[*ssa.BasicBlock]bool{}
+		var stack []*ssa.BasicBlock
+		stack = append(stack, b.Succs...)
+		for len(stack) > 0 {
+			x := stack[len(stack)-1]
+			stack = stack[:len(stack)-1]
+			if x == b {
+				out[b] = true
+				break
+			}
+			if seen[x] {
+				continue
+			}
+			seen[x] = true
+			stack = append(stack, x.Succs...)
+		}
+	}
+	return out
+}
+
+func goLoops(w *World) []*goLoop {
+	var out []*goLoop
+	for _, fn := range w.ModFuncs {
+		allInstrs(fn, func(in ssa.Instruction) {
+			g, ok := in.(*ssa.Go)
+			if !ok {
+				return
+			}
+			body := g.Common().StaticCallee()
+			if body == nil {
+				body = closureOf(g.Common().Value)
+			}
+			gl := &goLoop{Starter: fn, Go: g, Body: body}
+			out = append(out, gl)
+			if body == nil || body.Blocks == nil {
+				return
+			}
+			cyc := cycleBlocks(body)
+			gl.HasLoop = len(cyc) > 0
+			for b := range cyc {
+				if len(b.Instrs) == 0 {
+					continue
+				}
+				if ifi, ok := b.Instrs[len(b.Instrs)-1].(*ssa.If); ok {
+					// an exit edge: a successor outside the cycle
+					exits := false
+					for _, s := range b.Succs {
+						if !cyc[s] {
+							exits = true
+						}
+					}
+					if !exits {
+						continue
+					}
+					v, _ := stripNot(ifi.Cond, true)
+					gl.ExitConds = append(gl.ExitConds, w.Origin(v))
+					if f := loadedField(v); f != nil {
+						gl.FlagField = append(gl.FlagField, &fieldRef{Owner: fieldOwner(v), Name: f.Name(), Load: v})
+					}
+				}
+				for _, x := range b.Instrs {
+					if s, ok := x.(*ssa.Select); ok {
+						gl.Selects = append(gl.Selects, s)
+						for _, st := range s.States {
+							gl.ExitConds = append(gl.ExitConds, "select:"+w.Origin(st.Chan))
+						}
+					}
+				}
+			}
+		})
+	}
+	return out
+}
